@@ -18,10 +18,21 @@ PROPS = {
     "C05": dict(
         jobs=[dict(harness="c05_barrier", variant="a", weight=2), dict(harness="c05_barrier", variant="n", weight=1)],
         components=comp(), expected_probes=["region_fastmode", "region_sleepmode"],
+        design_ref="3.5",
+        level_text="Seeded exploration of arrival / wake-up / re-entry interleavings of all six barrier implementations plus getBarrier(n) and reinit, on 1-16 threads "
+                   "and synthetic 1-4 socket topologies, with spurious condvar wake-ups, multi-wake signals, spurious weak-CAS failures, late thread starts and stalls. "
+                   "Oracles: phase separation by arrival stamps, arrival->departure happens-before on plain stamps, completion (deadlock / no-progress detection).",
+        level_note="Sampling over seeds, not enumeration. The pthread variant runs Galois's wrapper over the engine's pthread_barrier stub.",
         **tiers(3000, 100, 60000, 1200)),
 }
+
+ALL_IDS = ["C%02d" % i for i in range(1, 21)]
 
 NOT_APPLICABLE = {
     "C13": "pure arithmetic functions of (sizes, weights, part index): no schedule, clock, I/O or fault for a simulator to control (DESIGN 3.13)",
     "C14": "single-threaded container conformance ('used from one thread'): no concurrency, time or I/O to simulate (DESIGN 3.14)",
 }
+
+for _id in ALL_IDS:
+    if _id not in PROPS and _id not in NOT_APPLICABLE:
+        NOT_APPLICABLE[_id] = "not claimed yet: its galsim check is designed (DESIGN.md section 3) but not built/validated at this commit"
